@@ -5,6 +5,7 @@ mod c16;
 mod c10;
 mod env;
 mod c01;
+mod c12;
 
 use util::Ctx;
 
@@ -33,6 +34,7 @@ fn main() {
         ("gen", "C16") => c16::gen(&mut ctx),
         ("gen", "C10") => c10::gen(&mut ctx),
         ("gen", "C01") => c01::gen(&mut ctx),
+        ("gen", "C12") => c12::gen(&mut ctx),
         _ => { eprintln!("unknown command"); std::process::exit(2); }
     }
     ctx.finish(stats.as_deref());
